@@ -64,7 +64,7 @@ def classify(case, net, r: R):
         r.cls('peak')
 
 
-def check_phasor(case, r: R):
+def _check_phasor_one(case, r: R):
     from CircuitCalculator.Circuit.solution import ComplexSolution, DCSolution
     p = prepare(case, r)
     if p is None:
@@ -142,6 +142,22 @@ def phasor_case(draw, min_sources=1):
                 else:
                     c['args']['G'] = draw(gen.pos_real(-4, 1))
     return {'circuit': spec, 'w': w, 'peak': draw(st.booleans())}
+
+
+def check_phasor(case, r: R):
+    """the case itself, then - in the same process - its value-perturbed twin (same names, topology, listing order):
+    a result that is cached or keyed by structure instead of by value shows up on the second evaluation"""
+    _check_phasor_one(case, r)
+    if r.failures:
+        return
+    first_rejected, r.rejected = r.rejected, None
+    twin = dict(case)
+    twin['circuit'] = gen.twin_circuit(case['circuit'])
+    sub = R()
+    _check_phasor_one(twin, sub)
+    for s_, d_ in sub.failures:
+        r.fail('twin:' + s_, d_)
+    r.rejected = first_rejected
 
 
 TESTS = [
